@@ -2920,7 +2920,7 @@ template< size_t L>
 {
    if ((pos >= mLength) || (count == 0))
       return std::string();
-   if ((count == std::string::npos) || (pos + count >= mLength))
+   if (count >= mLength - pos)
       count = mLength - pos;
    return std::string( &mString[ pos], count);
 } // FixedString< L>::substr
